@@ -17,6 +17,12 @@ func owns(prop, oracle string) bool {
 		return true
 	}
 	switch prop {
+	case "C05":
+		// "the current view deeply equals what a fresh Config call would build
+		// ... (or the last view that verified, if that stack does not)": a view
+		// that is visible without having verified, while verification is
+		// active, is neither
+		return oracle == "C04.visible-unverified"
 	case "C04":
 		// "an update whose stacked result fails to stack or verify is not
 		// installed": what the stacked result of an update IS, is the fresh
